@@ -178,7 +178,9 @@ def r2_seal_reaches_hash_inputs(chk: Check):
             gs = [(src(t.ast), pol) for t, pol in g.guards(n) if t.kind == "test"]
             chk.require(("self.recurse_task", True) in gs, chk.fkey(f, "task under recurse_task"), "descent into the producing task must be controlled by recurse_task", loc)
     sl = tree.func("core.objects", "ConfigInformation.seal")
-    ok = any(dotted(c.func) == "Sealer" and any(k.arg == "recurse_task" and isinstance(k.value, ast.Constant) and k.value.value is True for k in c.keywords) for c in fn_calls(sl.node))
+    pre0 = tree.func("core.objects", "ConfigInformation.seal.Sealer.preprocess")
+    sealer_names = {"Sealer"} | ({pre0.cls.node.name} if pre0.cls is not None else set())
+    ok = any(dotted(c.func) in sealer_names and any(k.arg == "recurse_task" and isinstance(k.value, ast.Constant) and k.value.value is True for k in c.keywords) for c in fn_calls(sl.node))
     chk.require(ok, chk.fkey(sl, "sealer recurses into tasks"), "the sealing walk must be created with recurse_task=True", chk.loc(sl.module, sl.node))
     pre = tree.func("core.objects", "ConfigInformation.seal.Sealer.preprocess")
     rets = [src(x.value) for x in body_walk(pre.node) if isinstance(x, ast.Return)]
